@@ -20,7 +20,9 @@ from harness.common import Failure, Spec, coq_list
 # the synthetic world (one description, used to write the files AND to build the Coq world term)
 
 SEG = ["", "ljpkg", "mod", "sub", "deep", "inner", "ljforeign", "Allowed", "Other", "func", "CONST", "Gadget",
-       "danger", "Inner", "f", "meth", "nosuch", "SubThing", "Reg", "bool", "eval", "nopkg", "x"]
+       "danger", "Inner", "f", "meth", "nosuch", "SubThing", "Reg", "bool", "eval", "nopkg", "x",
+       "own", "Derived", "FromForeign", "__setstate__", "__base__", "__mro__", "__class__", "__subclasses__", "__bases__",
+       "mro", "__name__", "__init__", "__new__"]
 SEGID = {s: i for i, s in enumerate(SEG)}
 
 FILES = {
@@ -36,7 +38,25 @@ FILES = {
                     "    def meth(self): return 1\n"
                     "def danger(): return 'danger'\n",
     "ljpkg/__init__.py": "",
-    "ljplain.py": "class P1:\n    pass\nclass P2:\n    pass\n",      # round-trip classes: default state handling
+    # round-trip classes: default state handling; Jellyable records whose state is built afresh by getStateFor
+    "ljplain.py": "from twisted.spread import jelly\n"
+                  "class P1:\n    pass\nclass P2:\n    pass\n"
+                  "class Rec(jelly.Jellyable):\n"
+                  "    def __init__(self, name, tags):\n"
+                  "        self.name, self.tags, self.secret = name, tags, 'not sent'\n"
+                  "    def getStateFor(self, jellier):\n"
+                  "        return {'name': self.name, 'tags': list(self.tags)}\n"
+                  "class RecCopy(jelly.Unjellyable):\n    pass\n"
+                  "class LRec(jelly.Jellyable):\n"
+                  "    def __init__(self, name, tags):\n"
+                  "        self.name, self.tags = name, tags\n"
+                  "    def getStateFor(self, jellier):\n"
+                  "        return [self.name, list(self.tags)]\n"
+                  "class LRecCopy(jelly.Unjellyable):\n"
+                  "    def setStateFor(self, unjellier, state):\n"
+                  "        self.state = state\n"
+                  "jelly.setUnjellyableForClass(Rec, RecCopy)\n"
+                  "jelly.setUnjellyableForClass(LRec, LRecCopy)\n",
     "ljpkg/mod.py": "import ljforeign\n"
                     "from ljforeign import Gadget\n"
                     "from ljlog import Base\n"
@@ -44,6 +64,10 @@ FILES = {
                     "    def meth(self): return 1\n"
                     "class Other(Base):\n"
                     "    def meth(self): return 2\n"
+                    "class Derived(Allowed):\n"            # inherits meth from a class of an allowed module
+                    "    def own(self): return 3\n"
+                    "class FromForeign(Gadget):\n"         # inherits meth from a class of a foreign module
+                    "    def own(self): return 4\n"
                     "def func(): return 1\n"
                     "CONST = 5\n",
     "ljpkg/sub.py": "from ljlog import Base\n"
@@ -62,13 +86,20 @@ ATTRS = {
     ("ljpkg.mod", "ljforeign"): ("M", "ljforeign"), ("ljpkg.mod", "Gadget"): ("C", "ljforeign.Gadget"),
     ("ljpkg.mod", "Allowed"): ("C", "ljpkg.mod.Allowed"), ("ljpkg.mod", "Other"): ("C", "ljpkg.mod.Other"),
     ("ljpkg.mod", "func"): ("F", "ljpkg.mod.func"), ("ljpkg.mod", "CONST"): ("D", ""),
+    ("ljpkg.mod", "Derived"): ("C", "ljpkg.mod.Derived"), ("ljpkg.mod", "FromForeign"): ("C", "ljpkg.mod.FromForeign"),
+    ("ljpkg.mod.Derived", "own"): ("F", "ljpkg.mod.Derived.own"),
+    ("ljpkg.mod.FromForeign", "own"): ("F", "ljpkg.mod.FromForeign.own"),
     ("ljpkg.mod.Allowed", "meth"): ("F", "ljpkg.mod.Allowed.meth"),
     ("ljpkg.mod.Other", "meth"): ("F", "ljpkg.mod.Other.meth"),
     ("ljpkg.sub", "SubThing"): ("C", "ljpkg.sub.SubThing"), ("ljpkg.sub", "f"): ("F", "ljpkg.sub.f"),
     ("ljpkg.deep", "x"): ("D", ""),
     ("ljpkg.deep.inner", "Inner"): ("C", "ljpkg.deep.inner.Inner"), ("ljpkg.deep.inner", "f"): ("F", "ljpkg.deep.inner.f"),
 }
-CLASSES = ["ljpkg.mod.Allowed", "ljpkg.mod.Other", "ljforeign.Gadget", "ljpkg.sub.SubThing", "ljpkg.deep.inner.Inner"]
+CLASSES = ["ljpkg.mod.Allowed", "ljpkg.mod.Other", "ljforeign.Gadget", "ljpkg.sub.SubThing", "ljpkg.deep.inner.Inner",
+           "ljpkg.mod.Derived", "ljpkg.mod.FromForeign"]
+METHOD_NAMES = ["meth", "own", "nosuch",                              # own / inherited (allowed or foreign base) / missing
+                "__setstate__", "__new__", "__init__",               # inherited from ljlog.Base / object
+                "__base__", "__bases__", "__mro__", "__class__", "__subclasses__", "mro", "__name__"]   # type attributes
 TYPES = ["list", "tuple", "dictionary", "set", "None", "module", "class", "function", "instance", "method",
          "persistent", "unpersistable", "bool", "eval"]
 DANGEROUS = ["os.system", "subprocess.Popen", "builtins.eval", "builtins.exec", "os.popen", "shutil.rmtree",
@@ -108,7 +139,11 @@ def cn(name: str) -> str:
 
 
 def num(name: str) -> str:
-    return ".".join(str(SEGID[s]) for s in name.split(".")) if name else ""
+    if not name:
+        return ""
+    if not all(x in SEGID for x in name.split(".")):
+        return "?" + name
+    return ".".join(str(SEGID[s]) for s in name.split("."))
 
 
 # ------------------------------------------------------------------------------------------------
@@ -166,7 +201,10 @@ def shape(o, depth=0):
     if isinstance(o, types.FunctionType):
         q = o.__module__ + "." + o.__qualname__
         if "." in o.__qualname__:          # a method (bound, or fetched from the class when im_self is None)
-            return "m<" + num(q.rsplit(".", 1)[0]) + ">"
+            owner = q.rsplit(".", 1)[0]
+            if owner not in CLASSES:
+                return "mx<" + owner + ">"      # a function that lives in a class outside the synthetic classes
+            return "m<" + num(owner) + ">"
         return "F<" + num(q) + ">"
     if isinstance(o, jelly.Unpersistable):
         return "U"
@@ -274,7 +312,53 @@ class _LazyClasses:
         return iter(())
 
 
+def impl_records(case) -> str:
+    """one jelly() call over Jellyable records with on-the-fly state; every copy must carry ITS OWN state and the
+    sharing structure must be exactly that of the input (none introduced, none lost)"""
+    _world_dir()
+    import importlib
+    from twisted.spread import jelly
+    ljplain = importlib.import_module("ljplain")
+    objs = [getattr(ljplain, r[0])(r[1], list(r[2])) for r in case["records"]]
+    lst = [objs[i] for i in case["order"]]
+    p = jelly.SecurityOptions()
+    p.allowBasicTypes()
+    other = jelly.SecurityOptions()
+    other.allowTypes("function", "module")
+    try:
+        sexp = jelly.jelly(lst)
+        back = jelly.unjelly(sexp, p)
+    except Exception as e:
+        return "raised:" + type(e).__name__
+    order = case["order"]
+    if not isinstance(back, list) or len(back) != len(order):
+        return "diff:length"
+    ndup = len(order) - len(set(order))
+    if repr(sexp).count("dereference") != ndup:
+        return "diff:sharing-in-wire (%d dereferences for %d repeated records)" % (repr(sexp).count("dereference"), ndup)
+    for i, o in enumerate(back):
+        kind, name, tags = case["records"][order[i]]
+        want = {"name": name, "tags": list(tags)} if kind == "Rec" else [name, list(tags)]
+        got = o.__dict__ if kind == "Rec" else getattr(o, "state", None)
+        if type(o).__name__ != kind + "Copy" or got != want:
+            return "diff:state of record %d is %r, expected %r" % (i, got, want)
+    for i in range(len(back)):
+        for j in range(i + 1, len(back)):
+            if (back[i] is back[j]) != (order[i] == order[j]):
+                return "diff:sharing of records %d and %d" % (i, j)
+    tagsof = lambda o: o.__dict__["tags"] if "tags" in o.__dict__ else o.state[1]
+    seen = {}
+    for i, o in enumerate(back):
+        t = tagsof(o)
+        if id(t) in seen and seen[id(t)] != order[i]:
+            return "diff:state container shared between records %d and %d" % (seen[id(t)], order[i])
+        seen[id(t)] = order[i]
+    return "same"
+
+
 def impl(case) -> str:
+    if case.get("kind") == "records":
+        return impl_records(case)
     if case.get("kind") == "roundtrip":
         return impl_roundtrip(case)
     r = run_real(case)
@@ -289,6 +373,11 @@ def impl(case) -> str:
 # the property oracle (no model): imports / instantiations / result all covered by the policy
 
 def oracle(case, obs):
+    if case.get("kind") == "records":
+        if obs == "same":
+            return None
+        return Failure(case, "jelly/unjelly of Jellyable records with on-the-fly state: " + obs,
+                       "records-roundtrip:" + obs.split(" ")[0])
     if case.get("kind") == "roundtrip":
         obs = obs.split("|")[0]
         if obs == "same":
@@ -326,6 +415,10 @@ def oracle(case, obs):
             if kind == "F" and name.rpartition(".")[0] not in allowed:
                 return Failure(case, f"result contains function {name} of a module that is not allowed",
                                "result-function:" + name)
+        m = re.search(r"mx<([^>]*)>", res)
+        if m:
+            return Failure(case, f"result contains a method whose function is defined in {m.group(1)}, a class that "
+                                 f"never passed isClassAllowed", "result-method-from:" + m.group(1))
         if "?" in res:
             return Failure(case, "result contains an object of an unexpected type: " + res, "result-unknown")
     return None
@@ -665,7 +758,7 @@ def rand_graph(rng):
 # ------------------------------------------------------------------------------------------------
 # generator of hostile s-expressions
 
-NAMES = ["ljpkg.mod.Allowed", "ljpkg.mod.Other", "ljpkg.mod.Gadget", "ljpkg.mod.func", "ljpkg.mod.CONST",
+NAMES = ["ljpkg.mod.Derived", "ljpkg.mod.FromForeign", "ljpkg.mod.Allowed", "ljpkg.mod.Other", "ljpkg.mod.Gadget", "ljpkg.mod.func", "ljpkg.mod.CONST",
          "ljpkg.mod.ljforeign", "ljpkg.mod.nosuch", "ljpkg.sub", "ljpkg.sub.SubThing", "ljpkg.sub.f", "ljpkg.deep",
          "ljpkg.deep.inner", "ljpkg.deep.inner.Inner", "ljpkg.deep.inner.f", "ljpkg.deep.x", "ljforeign.Gadget",
          "ljforeign.danger", "ljforeign", "ljpkg", "ljpkg.mod", "nopkg.x", "ljpkg.nosuch.x", "bool", "eval", "",
@@ -724,13 +817,49 @@ def rand_policy(rng):
     return {"types": types, "modules": mods, "classes": classes}
 
 
+def rand_method_case(rng):
+    """[method, name, self, [class, C]] under a policy that allows the method tag and (mostly) the class C; the name is
+    C's own method, a method inherited from a base in an allowed / a foreign module, a type attribute, or missing"""
+    A = lambda n: {"a": n}
+    c = rng.choice(["ljpkg.mod.Allowed", "ljpkg.mod.Derived", "ljpkg.mod.FromForeign", "ljpkg.mod.Other",
+                    "ljpkg.sub.SubThing", "ljforeign.Gadget"])
+    mod = c.rpartition(".")[0]
+    types_ = ["method", "class", "None", "dictionary", "list"] + [t for t in ("instance", "function", "tuple") if rng.random() < 0.5]
+    classes = [c] if rng.random() < 0.85 else []
+    classes += [x for x in CLASSES if rng.random() < 0.2 and x not in classes]
+    mods = [mod] + [m for m in MODULES if rng.random() < 0.15 and m != mod]
+    self_ = rng.choice([["None"], ["None"], [c, ["dictionary"]], ["instance", ["class", A(c)], ["dictionary"]], {"i": 1},
+                        ["list"]])
+    sexp = ["method", {"s": rng.choice(METHOD_NAMES)}, self_, ["class", A(c)]]
+    if rng.random() < 0.2:
+        sexp = ["list", sexp, ["method", {"s": rng.choice(METHOD_NAMES)}, ["None"], ["class", A(c)]]]
+    case = {"policy": {"types": types_, "modules": mods, "classes": classes}, "sexp": sexp}
+    if rng.random() < 0.5:
+        case["warm"] = True
+    return case
+
+
+def rand_records(rng):
+    """several Jellyable instances whose getStateFor builds a fresh state container each time, in ONE jelly() call"""
+    n = rng.choice([2, 3, 5, 10, 50, 120, 200])
+    recs = [[rng.choice(["Rec", "LRec"]), "rec%d" % i, ["t%d" % i] * rng.randrange(0, 3)] for i in range(n)]
+    order = list(range(n))
+    if rng.random() < 0.4:                      # genuine sharing: some record appears twice
+        order.insert(rng.randrange(n + 1), rng.randrange(n))
+    return {"kind": "records", "records": recs, "order": order}
+
+
 def gen(rng, tier):
     n = 1500 if tier == "quick" else 25000
     out = []
     for i in range(n):
         k = rng.random()
-        if k < 0.12:
+        if k < 0.02:
+            out.append(rand_records(rng))
+        elif k < 0.12:
             out.append(rand_graph(rng))
+        elif k < 0.22:
+            out.append(rand_method_case(rng))
         else:
             c = {"policy": rand_policy(rng), "sexp": rand_sexp(rng, real=k < 0.25)}
             if rng.random() < 0.4:
@@ -775,6 +904,23 @@ def corpus():
         {"policy": P(TYPES, MODULES, CLASSES), "sexp": ["os.system", A("x")]},
         {"policy": P(TYPES, MODULES, CLASSES), "sexp": ["function", A("os.system")]},
         {"policy": P(TYPES, MODULES, CLASSES), "sexp": ["instance", ["class", A("subprocess.Popen")], ["list"]]},
+        {"kind": "records", "records": [["Rec", "rec%d" % i, ["t%d" % i]] for i in range(3)], "order": [0, 1, 2]},
+        {"kind": "records", "records": [["Rec", "rec%d" % i, ["t%d" % i, "u"]] for i in range(60)], "order": list(range(60))},
+        {"kind": "records", "records": [[("LRec" if i % 2 else "Rec"), "r%d" % i, []] for i in range(200)],
+         "order": list(range(200)) + [7]},
+        # method names that are not in the class's own __dict__: inherited (allowed / foreign base), type attributes
+        {"warm": True, "policy": P(["method", "class"], ["ljpkg.mod"], ["ljpkg.mod.FromForeign"]),
+         "sexp": ["method", {"s": "meth"}, ["None"], ["class", A("ljpkg.mod.FromForeign")]]},
+        {"policy": P(["method", "class"], ["ljpkg.mod"], ["ljpkg.mod.Derived"]),
+         "sexp": ["method", {"s": "meth"}, ["None"], ["class", A("ljpkg.mod.Derived")]]},
+        {"policy": P(["method", "class", "dictionary"], ["ljpkg.mod"], ["ljpkg.mod.Allowed"]),
+         "sexp": ["method", {"s": "__setstate__"}, ["ljpkg.mod.Allowed", ["dictionary"]], ["class", A("ljpkg.mod.Allowed")]]},
+        {"policy": P(["method", "class"], ["ljpkg.mod"], ["ljpkg.mod.Derived"]),
+         "sexp": ["method", {"s": "__base__"}, ["None"], ["class", A("ljpkg.mod.Derived")]]},
+        {"policy": P(["method", "class"], ["ljpkg.mod"], ["ljpkg.mod.Derived"]),
+         "sexp": ["method", {"s": "__mro__"}, ["None"], ["class", A("ljpkg.mod.Derived")]]},
+        {"policy": P(["method", "class"], ["ljpkg.mod"], ["ljpkg.mod.Derived"]),
+         "sexp": ["method", {"s": "own"}, ["None"], ["class", A("ljpkg.mod.Derived")]]},
         {"kind": "roundtrip", "graph": [["list", 0, 1, 1], ["dict", "k", 0]]},
         {"kind": "roundtrip", "graph": [["list", 2, 3], ["inst", "ljplain.P1", "a0", 2], ["tuple", 0, 1], ["list"],
                                         ["inst", "ljplain.P2"], ["dict"]]},
@@ -833,6 +979,8 @@ def _world_coq():
 
 
 def to_coq(case):
+    if case.get("kind") == "records":
+        return None          # Jellyable.getStateFor path: oracle only
     if case.get("kind") == "roundtrip":
         return "(inr " + graph_coq(case["graph"]) + ")"
     s = sexp_coq(case["sexp"])
@@ -871,6 +1019,12 @@ def model_equal(case, impl_obs, model_out):
 
 
 def shrink(case):
+    if case.get("kind") == "records":
+        n = len(case["records"])
+        for m in (2, 3, n // 2, n - 1):
+            if 2 <= m < n:
+                yield {"kind": "records", "records": case["records"][:m], "order": [i for i in case["order"] if i < m]}
+        return
     if case.get("kind") == "roundtrip":
         g = case["graph"]
         for i in range(len(g) - 1, 0, -1):
@@ -896,6 +1050,8 @@ def shrink(case):
 
 
 def hist(case, obs):
+    if case.get("kind") == "records":
+        return "records:n=%d" % len(case["records"])
     if case.get("kind") == "roundtrip":
         return "roundtrip"
     if case.get("warm"):
@@ -919,14 +1075,18 @@ SPEC = Spec(
     corpus=corpus,
     shrink=shrink,
     histogram=hist,
-    nontrivial=lambda c, o: c.get("kind") == "roundtrip" or not o.startswith("X:insecure||"),
+    nontrivial=lambda c, o: c.get("kind") in ("roundtrip", "records") or not o.startswith("X:insecure||"),
     rule="grammar over jelly tags (list/tuple/dictionary/set/None/module/class/function/instance/method/persistent/"
          "unpersistable/dotted instance types/unknown tags, wrong arities) with names drawn from a synthetic package "
          "tree (submodules, nested packages, a foreign module and a foreign class imported into an allowed module, "
          "non-allowed classes beside allowed ones, data attributes, missing names) and from real dangerous callables "
          "(os.system, subprocess.Popen, builtins.eval, ... oracle only); random policies (types x modules x classes, "
          "with and without the allowInstancesOf closure); 12% random allowed object graphs with shared and cyclic "
-         "references for the jelly->unjelly round trip.  non-trivial = not refused outright before any effect",
+         "references for the jelly->unjelly round trip; 10% `method` expressions under policies that allow the class, "
+         "with names drawn from own methods, methods inherited from a base in an allowed / a foreign module, type "
+         "attributes (__base__, __mro__, __subclasses__, mro ...), missing names; 2% lists of 2..200 Jellyable "
+         "records whose getStateFor builds a fresh state container (one jelly() call, with and without a repeated "
+         "record).  non-trivial = not refused outright before any effect",
     trusted=[
         "hand-written model coq/C45/Model.v (tied only as far as the generated cases reach); harness instrumentation "
         "(builtins.__import__ wrapped: for every import requested from jelly.py / reflect.py, the prefixes of the "
